@@ -21,7 +21,7 @@ RULE = ("files from the SpikeGLX writer model: {3A,3B1,3B2,NP2.1,NP2.4,NPultra,n
 ASSUMPTIONS = ["pairs of two index arrays are not generated (NumPy pairs them pointwise, the reader gathers orthogonally; the property "
                "names neither)", "values agree to float32 rounding of 'float32(raw) x factor': |got-exp| <= 2^-22 |exp|; sync exact",
                "mtscomp (dependency) is observed only through the reader"]
-REQUIRED = {"getitem_calls": 300, "read_calls": 50, "values_compared": 300, "geometry_rows_checked": 20, "cbin_files": 3, "negstep_slices": 10, "lf_band_files": 10, "inconsistent_metadata_files": 10, "uuid_named_with_sibling_band": 10, "shank_files_read": 20}
+REQUIRED = {"getitem_calls": 300, "read_calls": 50, "values_compared": 300, "geometry_rows_checked": 20, "cbin_files": 3, "negstep_slices": 10, "lf_band_files": 10, "inconsistent_metadata_files": 10, "uuid_named_with_sibling_band": 10, "shank_files_read": 20, "numpy_integer_selectors": 100}
 CASE_TIMEOUT = 60.0
 RTOL = 2.0 ** -22
 
@@ -165,6 +165,12 @@ def run_case(case):
         csel, clab = S.channel_selector(rng, rec.nc, fancy_ok=not S.is_fancy(nsel) or len(nsel) == 0)
         if S.is_fancy(nsel) and S.is_fancy(csel) and len(nsel) and len(csel):
             csel, clab = slice(None), "slice"
+        if p % 7 == 3:
+            # integers as NumPy hands them out (an index taken from arange / flatnonzero / argmax), for samples and for channels (round 19)
+            nsel, nlab = (np.int64, np.int32, np.intp)[p % 3](int(rng.integers(-ns, ns))), "numpy-int"
+            if p % 2:
+                csel, clab = np.int64(int(rng.integers(-rec.nc, rec.nc))), "numpy-int"
+            res.count("numpy_integer_selectors")
         entry = int(rng.integers(0, 5)) if rec.nsync else int(rng.integers(0, 3))      # the sync companions need a sync channel
         label = f"{label0} sr[{S.describe(nsel)}, {S.describe(csel)}] via {['getitem2', 'getitem1', 'read', 'read_samples', 'read+sync'][entry]}"
         key = "read"
@@ -176,9 +182,9 @@ def run_case(case):
             if entry == 0:
                 got = sr[nsel, csel]
                 exp = expected(cal, nsel, csel)
-                cm = syncmask[csel] if not isinstance(csel, int) else None
+                cm = syncmask[csel] if not isinstance(csel, (int, np.integer)) else None
                 res.count("getitem_calls")
-            elif entry == 1 and isinstance(nsel, (int, slice)):
+            elif entry == 1 and isinstance(nsel, (int, np.integer, slice)):
                 got = sr[nsel]
                 exp = cal[nsel]
                 cm = syncmask
@@ -186,10 +192,10 @@ def run_case(case):
             elif entry == 2:
                 got = sr.read(nsel=nsel, csel=csel, sync=False)
                 exp = expected(cal, nsel, csel)
-                cm = syncmask[csel] if not isinstance(csel, int) else None
+                cm = syncmask[csel] if not isinstance(csel, (int, np.integer)) else None
                 res.count("read_calls")
             elif entry == 4:
-                if S.is_fancy(nsel) or isinstance(nsel, int):   # the sync companion is defined for sample ranges
+                if S.is_fancy(nsel) or isinstance(nsel, (int, np.integer)):   # the sync companion is defined for sample ranges
                     nsel = S.rand_slice(rng, ns)
                     label = f"{label0} read({S.describe(nsel)}, {S.describe(csel)}, sync=True)"
                     if cbin and (nsel.step or 1) < 0:
@@ -197,7 +203,7 @@ def run_case(case):
                 data, sy = sr.read(nsel=nsel, csel=csel, sync=True)
                 got = data
                 exp = expected(cal, nsel, csel)
-                cm = syncmask[csel] if not isinstance(csel, int) else None
+                cm = syncmask[csel] if not isinstance(csel, (int, np.integer)) else None
                 res.count("read_calls")
                 word = np.atleast_1d(rec.raw[nsel, -1])
                 bits = ((word.astype(np.int64)[:, None] & 0xFFFF) >> np.arange(16)[None, :]) & 1
@@ -206,7 +212,7 @@ def run_case(case):
             else:
                 a = int(rng.integers(0, ns))
                 bnd = int(rng.integers(a, ns + 1))
-                chans = csel if not isinstance(csel, int) else None
+                chans = csel if not isinstance(csel, (int, np.integer)) else None
                 label = f"{label0} read_samples({a}, {bnd}, {S.describe(chans)})"
                 key = "read_samples:empty-range-analog-sync" if (a == bnd and kind == "nidq") else "read_samples"
                 out = sr.read_samples(first_sample=a, last_sample=bnd, channels=chans)
